@@ -46,6 +46,7 @@ func init() {
 		"time.Since":           noop("time.Since / time.Until / Time.Sub yield an arbitrary duration (nothing is assumed about elapsed time)"),
 		"time.Until":           noop("time.Since / time.Until / Time.Sub yield an arbitrary duration (nothing is assumed about elapsed time)"),
 		"(time.Time).Sub":      noop("time.Since / time.Until / Time.Sub yield an arbitrary duration (nothing is assumed about elapsed time)"),
+		"(context.Context).Err": noop("ctx.Err() yields an arbitrary error value (whether the context is cancelled at that instant is a demonic choice)"),
 		"errors.Is":            noop("errors.Is / errors.As yield an arbitrary boolean (the classification of an error value is not modelled)"),
 		"errors.As":            noop("errors.Is / errors.As yield an arbitrary boolean (the classification of an error value is not modelled)"),
 		"math/rand.NewSource":  noop("math/rand.NewSource / rand.New yield an opaque source of random numbers"),
